@@ -1,6 +1,7 @@
 (** * C12 — ORDER BY, LIMIT and OFFSET are honoured.
     Only statements, each closed by [exact], with its assumptions printed. *)
 From RL Require Import Model.Exec Proofs.ExecP Proofs.MergeJoinP Proofs.MergeOrderP.
+From RL Require Model.PlanSem Proofs.PlanOrderP.
 From Coq Require Import Permutation Sorted.
 
 (** ORDER BY returns a permutation of its input ... *)
@@ -39,9 +40,37 @@ Theorem left_outer_merge_join_is_not_sorted_on_the_right_keys :
   ~ sorted_on (rcols_keys 1 [0%nat]) (x_mergejoin JLeft [SCol 0] [SCol 0] 1 1 L R).
 Proof. exact mergejoin_left_not_sorted_on_right_keys. Qed.
 
+(** the other claims of the order analysis, on the meaning of plans (Model/PlanSem.v, tied to the executors by C01's
+    ground instances): (order keys c) and (topn l o keys c) are sorted on keys; filter and limit pass their child's
+    order on; and useless-order — (order keys c) => c when c is ordered by keys — keeps the very sequence of rows *)
+Import PlanSem PlanOrderP.
+Theorem plan_order_is_sorted_on_its_keys : forall env k c cols rows ks,
+  ppev env (Plan.N "order" [k; c]) = Some (MRel cols rows) -> keys_pat env k = Some ks -> sorted_by ks rows.
+Proof. exact order_is_sorted_on_its_keys. Qed.
+Theorem plan_topn_is_sorted_on_its_keys : forall env l o k c cols rows ks,
+  ppev env (Plan.N "topn" [l; o; k; c]) = Some (MRel cols rows) -> keys_pat env k = Some ks -> sorted_by ks rows.
+Proof. exact topn_is_sorted_on_its_keys. Qed.
+Theorem plan_filter_keeps_the_order : forall env p c cols rows ks,
+  ppev env (Plan.N "filter" [p; c]) = Some (MRel cols rows) ->
+  (forall cols' rows', ppev env c = Some (MRel cols' rows') -> sorted_by ks rows') -> sorted_by ks rows.
+Proof. exact filter_keeps_the_order. Qed.
+Theorem plan_limit_keeps_the_order : forall env l o c cols rows ks,
+  ppev env (Plan.N "limit" [l; o; c]) = Some (MRel cols rows) ->
+  (forall cols' rows', ppev env c = Some (MRel cols' rows') -> sorted_by ks rows') -> sorted_by ks rows.
+Proof. exact limit_keeps_the_order. Qed.
+Theorem useless_order_keeps_the_sequence : forall env k c cols rows ks x,
+  ppev env c = Some (MRel cols rows) -> keys_pat env k = Some ks -> sorted_by ks rows ->
+  ppev env (Plan.N "order" [k; c]) = Some x -> x = MRel cols rows.
+Proof. exact order_of_sorted_input_is_the_input. Qed.
+
 Print Assumptions order_is_permutation.
 Print Assumptions order_is_sorted.
 Print Assumptions limit_offset_exact.
 Print Assumptions topn_is_slice_of_order.
 Print Assumptions inner_merge_join_is_sorted_on_the_right_keys.
 Print Assumptions left_outer_merge_join_is_not_sorted_on_the_right_keys.
+Print Assumptions plan_order_is_sorted_on_its_keys.
+Print Assumptions plan_topn_is_sorted_on_its_keys.
+Print Assumptions plan_filter_keeps_the_order.
+Print Assumptions plan_limit_keeps_the_order.
+Print Assumptions useless_order_keeps_the_sequence.
